@@ -47,6 +47,17 @@ def run(ctx):
                 sigs[PUBHEX[i]] = E.raw_sig(i, pl) if rng.random() < 0.6 else E.gpg_sig(i, pl, see_also=rng.random() < 0.3)
             if rng.random() < 0.3:
                 sigs["junk é"] = rng.choice([5, None, {"signature": "zz"}, [1]])
+            # entries under other notations of a signer's key (valid or junk values): ignored, and left alone by later signing
+            for i in signers:
+                if rng.random() < 0.4:
+                    sp = rng.choice(["upper", "mixed", "lead_ws", "trail_nl", "nl_for_last"])
+                    sigs[E.KEY_SPELLINGS[sp](PUBHEX[i])] = rng.choice([sigs[PUBHEX[i]], {"signature": "00" * 64}, E.raw_sig((i + 1) % 4, pl)])
+            for i in range(4):
+                if i not in signers and rng.random() < 0.2:
+                    sigs[PUBHEX[i].upper()] = E.raw_sig(i, pl)
+                elif i not in signers and rng.random() < 0.2:
+                    # an entry in some other tool's format under a well-formed key: skipped, in whatever position the file order puts it
+                    sigs[PUBHEX[i]] = rng.choice([{"keyid": "x", "sig": "y"}, {}, {"signature": 5}, "text", None])
             init = {"signatures": sigs, "signed": pl}
             K = [PUBHEX[i] for i in rng.sample(range(5), rng.randint(1, 4))]
             queries = [["verify", K, t, g] for t in (1, 2) for g in (False, True)]
